@@ -29,6 +29,24 @@ CLAIMED = {
         design="7 C02", technique="Lean 4 proof (iff characterisation of the accept set) + generated tables + differential correspondence",
         note=NOTE_COMMON + "'Integer' is CPython's int(str) as modelled by pyInt? (Unicode digits, underscores, digit limit); "
              "that no failure other than ValidationError exists is checked by the correspondence run only."),
+    "C03": dict(
+        text="Lean theorems recv_lib_only / history_lib_only: from every state satisfying the reachable-state invariant, for every "
+             "line, configuration, local time and write-fault schedule, one iteration of listen never ends in a non-library "
+             "exception and re-establishes the invariant (so the gateway stays usable), by induction over histories of receives "
+             "and sends; proved compositionally (one lemma per combinator, handler, decorator, dispatch) over the handler chains, "
+             "message_buffer flags and except tuples regenerated from the code, with the conversions' error classes shown caught. "
+             "The model is tied to the real Gateway by differential histories (absurd payloads, malformed stream, probes after every error).",
+        design="7 C03", technique="Lean 4 proof (invariant + induction over histories, compositional safety judgement) + generated chains/except tuples + differential correspondence",
+        note=NOTE_COMMON + "Modelled: exception propagation through try/finally/except, awesomeversion outside the release grammar is "
+             "unmodelled (not generated). Stream-transport bytes are covered by C17's model; here they are exercised on the real code only."),
+    "C18": dict(
+        text="Lean theorems write_topic, echo_round_trip/echo_decodes (every prefix, payloads with ';' and '/'), subscribed_iff "
+             "(the five generated filters match exactly commands 0-4), fifo_exactly_once/kth_read over all interleavings of arrivals "
+             "and reads, never_deaf (undecodable payload or MqttError is queued, later messages still delivered) and disconnect_clean, "
+             "with the except/suppress clauses read from the generated tables; tied to MQTTTransport and MQTTClient (with a fake "
+             "aiomqtt client) by a differential run over all interleavings of <= 4 arrivals and <= 4 reads.",
+        design="7 C18", technique="Lean 4 proof (round-trip laws, filter characterisation, queue invariant over all interleavings) + generated except tuples + differential correspondence",
+        note=NOTE_COMMON + "Partial: aiomqtt, the broker, asyncio.Queue and task cancellation are modelled, not verified; '#' filters are not modelled."),
 }
 
 PENDING_REASON = "check not built yet in this round (model and theorems in progress); see DESIGN.md section 7"
